@@ -3,7 +3,7 @@ from propslib import comp_scope
 
 PROP = dict(
     extract=["editor"],
-    lean_targets=["Chewing.Props.C05"],
+    lean_targets=["Chewing.Props.C05", "Chewing.Props.C05Bound"],
     runs=[dict(bin="comp"), dict(bin="editor"),
           dict(bin="editor", args=["--script", "c05"], tag="editor-c05-overshoot"),
           dict(bin="capi_props", tag="capi_props", args=["--histories", "300", "--calls", "40"], args_thorough=["--histories", "6000", "--calls", "40"])],
@@ -50,7 +50,21 @@ MANIFEST = dict(
          "(TilingAt), which Proofs/EditorLink.lean derives from C01's invariant (tilingAt_of_shInv, dispatch_shInv: the state a "
          "key's state-machine part leaves satisfies it in all four states), giving Link.bounded_after_key_linked / "
          "tryAutoCommit_total_linked and, in Props/C18.lean, bounded_after_key_linked and buffer_bounded_along (len <= threshold "
-         "in Entering is an invariant of every key history) with no tiling premise. Tie: per-step correspondence "
+         "in Entering is an invariant of every key history) with no tiling premise. GLOBAL bound (round 2, Chewing/Props/C05Bound.lean, "
+         "audited with this property): the unrestricted statement 'the buffer never holds more than the largest configured limit plus "
+         "one' is REFUTED on the model and confirmed on the real C API two ways - fuzzy_unbounded_refuted (keys alone under prefix lookup "
+         "= fuzzy engine: EnteringSyllable's Fuzzy arm inserts the pending partial syllable and stays in EnteringSyllable, where "
+         "process_keyevent never runs try_auto_commit: 200 x 'h' gives chewing_buffer_Len 199 at limit 39) and cancel_unbounded_refuted "
+         "(cancel_selecting / chewing_cand_close, also revalidate_selecting closing an emptied list, returns to Entering without "
+         "try_auto_commit; with the simple engine each cycle 'type a syllable, close the list' adds a symbol: 100 cycles give 100) - "
+         "and buffer_bounded_everywhere proves the rest: for every environment satisfying C01's EnvOK whose layout never answers Fuzzy "
+         "to key_press, from a fresh editor with exact lookup, thresholds <= B (initially and in every set_editor_options), every "
+         "history of valid operations - ALL keys in all four states, select, start_selecting, commit, clear, jump_*, engine change; "
+         "cancel_selecting and the option / layout / learn / unlearn calls when the open list is not the simple engine's over-full "
+         "one-word list (SafeAlong) - returns, and in the state reached, of whichever kind, len <= B, <= B + 1 while a candidate list "
+         "is open (attained: bound_plus_one_attained); B is the largest threshold of the history because lowering the limit leaves the "
+         "longer buffer until the next absorbed key; inside a step, where the conversion runs, at most B + max 2 K symbols, K = longest "
+         "easy-symbol expansion of the editor's table (conversions_are_short). Tie: per-step correspondence "
          "of both models with the real code from the implementation's own pre-state, plus a shadow list/cursor oracle "
          "written from the property text evaluated on every step of the real editor, including a shadow FRAME per open "
          "candidate list kept across steps (a list left without choosing, however it is closed, gives back the buffer and the "
@@ -63,7 +77,10 @@ MANIFEST = dict(
     note="Trusted: Lean kernel (axioms propext, Classical.choice, Quot.sound only), the harness and the compiled model "
          "driver, the read-only snapshot hook and the guarded forwarding probe for the crate-private CompositionEditor. "
          "bounded_after_key is conditional on the conversion answer tiling the buffer (C03); the linked form "
-         "(C18.bounded_after_key_linked, via Proofs/EditorLink.lean) replaces that by C01's EnvOK + reachable-state invariant.",
+         "(C18.bounded_after_key_linked, via Proofs/EditorLink.lean) replaces that by C01's EnvOK + reachable-state invariant. The global bound (Props/C05Bound.lean) holds for exact lookup and "
+         "without list-closing API calls over the simple engine's over-full list only: under prefix lookup (fuzzy engine) and through "
+         "cancel_selecting the real buffer grows without bound (recorded as refutations with concrete histories; not repaired, not a "
+         "known-class of this check's oracle, which evaluates the bound after keys that end in Entering).",
     technique="Lean 4 proof (invariants by induction over operation lists and editor histories, case analysis over the "
               "modelled key-event state machine, list frame equations) over executable models; sampled step-wise "
               "model/implementation correspondence; shadow-list oracle",
